@@ -460,6 +460,9 @@ class UpdateCollection(Message):
                 yield self._message(UpdateCollection.prefix(withdraws) + UpdateCollection.prefix(attr) + announced)
             else:
                 yield self._message(UpdateCollection.prefix(withdraws) + UpdateCollection.prefix(b'') + announced)
+            # they are sent: the MP messages below must not repeat them, nor lose their room to them
+            announced = b''
+            withdraws = b''
 
         # Get all families that have MP announces or withdraws
         all_mp_families = set(mp_announces.keys()) | set(mp_withdraws.keys())
@@ -477,36 +480,28 @@ class UpdateCollection(Message):
             mp_announce = MPNLRICollection.from_routed(announce_routed, {}, afi, safi)
             mp_withdraw = MPNLRICollection(withdraw_nlris, {}, afi, safi)
 
-            for mprnlri in mp_announce.packed_reach_attributes(negotiated, msg_size - len(withdraws + announced)):
+            for mprnlri in mp_announce.packed_reach_attributes(negotiated, msg_size):
                 if mp_reach:
-                    yield self._message(
-                        UpdateCollection.prefix(withdraws) + UpdateCollection.prefix(attr + mp_reach) + announced
-                    )
-                    announced = b''
-                    withdraws = b''
+                    yield self._message(UpdateCollection.prefix(b'') + UpdateCollection.prefix(attr + mp_reach))
                 mp_reach = mprnlri
 
-            if include_withdraw:
-                for mpurnlri in mp_withdraw.packed_unreach_attributes(
-                    negotiated,
-                    msg_size - len(withdraws + announced + mp_reach),
-                ):
+            if include_withdraw and withdraw_nlris:
+                # the last MP_REACH fragment may leave too little room for even one withdrawn
+                # prefix: announces and withdraws of a family go in separate messages
+                if mp_reach:
+                    yield self._message(UpdateCollection.prefix(b'') + UpdateCollection.prefix(attr + mp_reach))
+                    mp_reach = b''
+                for mpurnlri in mp_withdraw.packed_unreach_attributes(negotiated, msg_size):
                     if mp_unreach:
-                        yield self._message(
-                            UpdateCollection.prefix(withdraws)
-                            + UpdateCollection.prefix(mp_unreach + attr + mp_reach)
-                            + announced,
-                        )
-                        mp_reach = b''
-                        announced = b''
-                        withdraws = b''
+                        yield self._message(UpdateCollection.prefix(b'') + UpdateCollection.prefix(mp_unreach + attr))
                     mp_unreach = mpurnlri
 
-            yield self._message(
-                UpdateCollection.prefix(withdraws) + UpdateCollection.prefix(mp_unreach + attr + mp_reach) + announced,
-            )  # yield mpr/mpur per family
-            withdraws = b''
-            announced = b''
+            # nothing to say for this family (for instance withdraws only while withdraws are not
+            # included): an UPDATE without any NLRI would be read as an End-of-RIB marker
+            if mp_reach or mp_unreach:
+                yield self._message(
+                    UpdateCollection.prefix(b'') + UpdateCollection.prefix(mp_unreach + attr + mp_reach),
+                )  # yield mpr/mpur per family
 
     def pack_messages(self, negotiated: Negotiated, include_withdraw: bool = True) -> Generator['Update', None, None]:
         """Pack this UpdateCollection into wire-format Update messages.
